@@ -302,7 +302,17 @@ class Driver:
         if pol['p_stale'] and self.world.delivered and \
                 self.rng.random() < pol['p_stale']:
             old = self.rng.choice(self.world.delivered)
-            batch.append(dict(old, stale=True))
+            same = [m for m in self.world.delivered
+                    if any(b['job'] == m['job'] for b in batch)]
+            if same and self.rng.random() < 0.5:
+                # an old message of a job that also reports something new
+                # in this batch, delivered ahead of the new message
+                old = self.rng.choice(same)
+                idx = min(i for i, b in enumerate(batch)
+                          if b['job'] == old['job'])
+                batch.insert(idx, dict(old, stale=True))
+            else:
+                batch.append(dict(old, stale=True))
         if pol['p_reorder'] and len(batch) > 1 and \
                 self.rng.random() < pol['p_reorder']:
             self.rng.shuffle(batch)
